@@ -136,9 +136,11 @@ FuncStep(name, h, arg) ==
   IN IF Tag(out) = "ragged" THEN NewFresh(<<out[2], out[3]>>, <<mout[2], mout[3]>>, m, src) /\ last' = <<"new", Len(heap) + 1>>
      ELSE /\ UNCHANGED <<heap, alias, stale>> /\ bufs' = m[1] /\ view' = m[2] /\ last' = <<"obs", out, mout>>
 
-\* read-only operations.  "repr" "iter" "tolist" "ravel" "sum" "nonzero" "ufunc" "colsum" materialise the array they look at;
-\* "str" (prints a temporary selection), "len" "shape" "size" "dtype" "lengths" "copy" do not
-ReadMaterialises(kind) == kind \in {"repr", "iter", "tolist", "ravel", "sum", "nonzero", "ufunc", "colsum"}
+\* read-only operations.  Printing, iterating, the flat view, reductions, every array function and ufunc executed for its
+\* result only (the result is discarded): they materialise the array they look at.  "str" (prints a temporary selection),
+\* "len" "shape" "size" "dtype" "lengths" "copy" do not touch it at all.
+NonTouching == {"str", "len", "shape", "size", "dtype", "lengths", "copy"}
+ReadMaterialises(kind) == kind \notin NonTouching
 Read(h, kind) ==
   LET m == IF ReadMaterialises(kind) THEN MatIn(bufs, view, h) ELSE <<bufs, view>> IN
   /\ UNCHANGED <<heap, alias, stale>>                             \* C10: looking changes nothing
